@@ -161,7 +161,24 @@ fn listing_json(root: &Path) -> J {
 }
 
 pub fn make_config(root: &Path, cfg: &J) -> anyhow::Result<Config> {
-    let inv = cfg.get("inventory_path").and_then(J::as_str).unwrap_or_else(|| root.to_str().unwrap());
+    // the same directory under another spelling (doubled separator, interior `.`, trailing separator, a detour
+    // through a sub-directory): the configured path is normalised lexically, so nothing observable may change
+    let spelled: Option<String> = cfg.get("root_spelling").and_then(J::as_str).and_then(|sp| {
+        let parent = root.parent()?.to_str()?.to_string();
+        let name = root.file_name()?.to_str()?.to_string();
+        match sp {
+            "double_slash" => Some(format!("{parent}//{name}")),
+            "dot" => Some(format!("{parent}/./{name}")),
+            "trailing" => Some(format!("{parent}/{name}/")),
+            "detour" => Some(format!("{parent}/{name}/nodes/../../{name}")),
+            "triple" => Some(format!("{parent}///{name}//")),
+            _ => None,
+        }
+    });
+    let inv = match &spelled {
+        Some(s) => s.as_str(),
+        None => cfg.get("inventory_path").and_then(J::as_str).unwrap_or_else(|| root.to_str().unwrap()),
+    };
     if let Some(opts) = cfg.get("file_options").and_then(J::as_array) {
         // the same settings through a config file whose keys are written in the given order
         let mut m = serde_yaml::Mapping::new();
@@ -192,7 +209,31 @@ pub fn make_config(root: &Path, cfg: &J) -> anyhow::Result<Config> {
 
 fn rel_str(root: &Path, s: &str) -> String {
     // (with a working-directory-relative inventory the implementation names files as ./nodes/.. and ./classes/..)
-    s.replace(root.to_str().unwrap(), "<ROOT>").replace("./nodes/", "<ROOT>/nodes/").replace("./classes/", "<ROOT>/classes/")
+    let s = s.replace(root.to_str().unwrap(), "<ROOT>");
+    let s = replace_at_path_start(&s, "./nodes/", "<ROOT>/nodes/");
+    replace_at_path_start(&s, "./classes/", "<ROOT>/classes/")
+}
+
+/// Replace `pat` by `with` where `pat` starts a path (start of the text, or after a character that cannot be part of
+/// a path): `<ROOT>/./nodes/x` and `a/../nodes/x` are left alone.
+fn replace_at_path_start(s: &str, pat: &str, with: &str) -> String {
+    let mut out = String::with_capacity(s.len());
+    let mut rest = s;
+    let mut prev: Option<char> = None;
+    while let Some(i) = rest.find(pat) {
+        let before = rest[..i].chars().last().or(if i == 0 { prev } else { None });
+        let inside_path = matches!(before, Some(c) if c.is_alphanumeric() || "_./>-~".contains(c));
+        out.push_str(&rest[..i]);
+        if inside_path {
+            out.push_str(pat);
+        } else {
+            out.push_str(with);
+        }
+        prev = pat.chars().last();
+        rest = &rest[i + pat.len()..];
+    }
+    out.push_str(rest);
+    out
 }
 
 fn entities_json(v: Vec<(String, PathBuf, PathBuf)>) -> J {
@@ -628,6 +669,34 @@ pub fn run_crash(req: &mut J) -> Result<J, String> {
             }
         }
     }
+    // reconfiguration of the live instance between construction and rendering; calls may fail (a config file that is
+    // rejected half-way, a pattern list that does not compile) and the instance is used afterwards all the same
+    let mut r = r;
+    let mut reconf: Vec<J> = vec![];
+    if let Some(steps) = req.get("reconfigure").and_then(J::as_array) {
+        for (i, s) in steps.iter().enumerate() {
+            if let Some(opts) = s.get("load_options").and_then(J::as_array) {
+                // written as YAML text, one option per line in the given order (JSON values are YAML)
+                let mut text = String::new();
+                for o in opts {
+                    if let (Some(k), Some(v)) = (o.get(0).and_then(J::as_str), o.get(1)) {
+                        text.push_str(&format!("{}: {}\n", serde_json::to_string(k).unwrap(), v));
+                    }
+                }
+                let name = format!("reclass-config-{i}.yml");
+                let _ = std::fs::write(root.join(&name), text);
+                reconf.push(json!(r.config.load_from_file(&name, false).is_ok()));
+            } else if let Some(ps) = s.get("patterns").and_then(J::as_array) {
+                let ps: Vec<String> = ps.iter().filter_map(|p| p.as_str().map(str::to_string)).collect();
+                reconf.push(json!(r.set_ignore_class_notfound_regexp(ps).is_ok()));
+            } else if s.get("clone").is_some() {
+                r = r.clone();
+                reconf.push(json!(true));
+            } else if s.get("render_inventory").is_some() {
+                reconf.push(json!(r.render_inventory().is_ok()));
+            }
+        }
+    }
     let names: Vec<String> = r.nodes().map_err(|e| e.to_string())?.keys().cloned().collect();
     let mut ok = 0;
     let mut err = 0;
@@ -648,5 +717,5 @@ pub fn run_crash(req: &mut J) -> Result<J, String> {
             }
         }
     }
-    Ok(json!({"constructed": "ok", "nodes_ok": ok, "nodes_err": err, "inventory_ok": inv_ok}))
+    Ok(json!({"constructed": "ok", "nodes_ok": ok, "nodes_err": err, "inventory_ok": inv_ok, "reconfigure": reconf}))
 }
